@@ -300,6 +300,16 @@ func monC17(x *Ctx) {
 			if o := x.CopyTo(p0, &obj); o.Panic != nil {
 				continue
 			}
+			// attribute states of the target: the current value of a custom attribute may be unknown or null
+			// (a plan's computed attribute, a state's null); whatever it is, it is what the hook must receive
+			switch i % 16 {
+			case 5:
+				setCustomState(obj, x.Root, types.String{Unknown: true})
+				x.Count("to-calls-with-unknown-current-value", 1)
+			case 13:
+				setCustomState(obj, x.Root, types.String{Null: true})
+				x.Count("to-calls-with-null-current-value", 1)
+			}
 			prior = deepCopyTF(obj).(types.Object)
 		}
 		x.Eval(1)
@@ -459,6 +469,26 @@ func monC17(x *Ctx) {
 	if len(customs) > 0 {
 		a := customs[0]
 		x.Sample(map[string]interface{}{"case": x.Case.Name, "type": x.Root.Name, "custom_field": a.Path, "custom_type": a.CustomType, "expected_suffix": a.CustomSuffix, "hooks": []string{"GenSchema" + a.CustomSuffix, "CopyFrom" + a.CustomSuffix, "CopyTo" + a.CustomSuffix}})
+	}
+}
+
+// setCustomState replaces the value of every custom attribute reachable through single known objects.
+func setCustomState(o types.Object, ms *spec.Msg, v attr.Value) {
+	if o.Attrs == nil {
+		return
+	}
+	for _, a := range ms.Live() {
+		if a.Kind == spec.KCustom {
+			if _, ok := o.Attrs[a.Attr]; ok {
+				o.Attrs[a.Attr] = v
+			}
+			continue
+		}
+		if a.Msg != nil && a.Kind == spec.KObject && a.Oneof == nil {
+			if no, ok := o.Attrs[a.Attr].(types.Object); ok && !no.Null && !no.Unknown {
+				setCustomState(no, a.Msg, v)
+			}
+		}
 	}
 }
 
